@@ -224,6 +224,12 @@ class _TokenIntrospectionResource:
         token = body.get("token")
         if not isinstance(token, str) or not token or len(token) > _MAX_TOKEN_CHARS:
             return None
+        try:
+            # JSON admits lone surrogates ("\ud800"); such a string has no
+            # UTF-8 form, so it cannot be digested or be a real credential.
+            token.encode("utf-8")
+        except UnicodeEncodeError:
+            return None
         return token
 
     def on_post(self, req: falcon.Request, resp: falcon.Response) -> None:
